@@ -8,7 +8,7 @@ CHECKS = {
    text='Generated-input differential search: every one of the 61 reference background nuclides is driven from the same generated deviate tape through the C++ port and through the Decay0 2020-04-20 Fortran reference (compiled from the repo\'s own copy); events are compared particle by particle. Exploration, not proof: assurance is bounded by the tapes generated (threshold-dictionary steering reaches every branch bracket of the reference text with equal probability).',
    note='Trusted base: gfortran -fdefault-real-8 build of the reference; CERNLIB kernels bound to the port\'s kernels (checked separately in C16); constants rule (a mismatch is excused iff the port agrees with the reference flavour whose pi/2pi/fermi-mass constants are at double precision); knife-edge rule; tolerances 5e-7 (momentum) and 1e-9 (time).', ref='4 C01, 3'),
  'C02': dict(engine='tapecheck+refdiff', technique='property-based differential testing against the Fortran reference over the (isotope, level, mode, window) grid',
-   text='Generated-input differential search over double-beta configurations accepted by the reference: initialisation (ier, toallevents, level energy, spin, deviates consumed) and N generated events per configuration are compared with the Fortran reference driven from the same tapes. Quick tier samples the grid stratified; thorough tier enumerates every (isotope, level, mode) and four window classes.',
+   text='Generated-input differential search over double-beta configurations accepted by the reference: initialisation (ier, toallevents, level energy, spin, deviates consumed) and N generated events per configuration are compared with the Fortran reference driven from the same tapes. Quick tier samples the grid stratified (every mode of every isotope at level 0, one accepted cell per excited level); thorough tier enumerates every (isotope, level, mode) and four window classes. In both tiers every de-excitation routine <Nuclide>low is additionally called directly on both sides for every entry level the reference tabulates (cascade-level differential, 30 000 / 2 000 000 steered tapes per (routine, level)).',
    note='Same trusted base as C01. Mode 20 with level>0 is excluded (README: quadruple beta only to the ground state; the reference silently forces level 0). Known findings are matched by signature and excluded from the search by construction.', ref='4 C02, 3'),
  'C03': dict(engine='tapecheck+gencheck', technique='property-based testing with a conservation-law oracle (energy budget vs Q-value and level tables, window membership, toallevents monotonicity)',
    text='Generated configurations (isotope, level, mode, window class) accepted by decay0_generator and steered tapes; every event is checked against an oracle that is independent of the port: Q-values from the reference table, level energies from the README appendix, window bounds, toallevents >= 1 and monotone under nested windows.',
@@ -23,14 +23,14 @@ CHECKS = {
    text='The finite grid (58 names x levels -1..17 x modes 0..25 x 5 window kinds, two API layers) is enumerated completely in both tiers and compared with the Fortran reference\'s ier plus the documented BxDecay0 rules; every accepted point shoots events through the C03/C04 predicates; every rejected point must refuse to shoot; all labels round-trip.',
    note='Names are compared only on published spellings and on names both sides must refuse. Positive gA points need a data set (C14); their negatives are enumerated here.', ref='4 C06'),
  'C07': dict(engine='rapidcheck', technique='stateful property-based testing (generated API histories, whole-sequence shrinking) with a fresh-instance metamorphic oracle',
-   text='rapidcheck-generated histories over a pool of generators and event objects; at every shot the event must be bit-identical to what a fresh generator writes into a fresh event from the same tapes.',
-   note='18 configurations chosen for angular correlations, deep cascades, chains, windows, 4b and b+ modes; thorough tier repeats under ASan/UBSan.', ref='4 C07'),
+   text='rapidcheck-generated histories over a pool of generators and event objects, each in its own forked child; at every shot the event must be bit-identical (deviate count included) to what a PRISTINE PROCESS (forked before any library call) produces with a fresh generator and a fresh event from the same tapes. Plus one marathon history per shard (one generator per configuration, tens of thousands of shots hopping between them, minimised by delta debugging) and deep single-instance histories (6000 warm-up shots, then 3000 tapes shot by the warmed instance and by its cold twin forked right after initialize()).',
+   note='~130 configurations: 21 hand-picked (angular correlations, deep cascades, chains, windows, 4b, b+ modes), every published background name, two double-beta entries per legacy mode, 36 momentum-direction-lock variants; thorough tier repeats under ASan/UBSan.', ref='4 C07'),
  'C08': dict(engine='libFuzzer+sanitized drivers', technique='coverage-guided fuzzing (structure-aware libFuzzer target) and property-based drivers run under ASan/UBSan/_GLIBCXX_ASSERTIONS',
    text='The generation drivers of C04/C05 are re-run against an ASan+UBSan+_GLIBCXX_ASSERTIONS build and a structure-aware libFuzzer target explores (configuration, reuse pattern, MDL operation, tape); any sanitizer report is a violation.',
    note='Sanitizers are the oracle; leak detection is off; documented rejections (exceptions) are not failures.', ref='4 C08'),
  'C09': dict(engine='proto (exhaustive DFS + rapidcheck)', technique='exhaustive enumeration of call sequences up to a fixed length + stateful property-based testing against an explicit protocol model',
-   text='All sequences of up to 4 (quick) / 5 (thorough) calls over an alphabet of 24 abstract public calls are enumerated and compared with an explicit model after every step; rapidcheck adds longer sequences with whole-sequence shrinking.',
-   note='Quadrature is stubbed in this binary; acceptance of a configuration is taken from a fresh instance (C06 decides acceptance itself).', ref='4 C09'),
+   text='All sequences of up to 4 (quick) / 5 (thorough) calls over an alphabet of 28 abstract public calls are enumerated and compared with an explicit model after every step (which calls must raise, every getter, reset == fresh, events and toallevents == fresh instance); a failure-recovery family (valid configuration, spoiling call, refused initialize, repairing call, every 0-2 further calls, initialize, shoot, shoot) is enumerated completely; rapidcheck adds longer sequences with whole-sequence shrinking.',
+   note='Quadrature is stubbed in this binary. The verdict expected from initialize() is the verdict on a fresh instance AND, independently, a rule table written from the README appendix for the configurations of the alphabet (the two must agree at every initialize()).', ref='4 C09'),
  'C10': dict(engine='tapecheck+mdlcheck', technique='property-based testing with geometric invariants and metamorphic relations (op vs no-op event, degree vs radian entry point)',
    text='Generated events, cones, species filters, ranks and entry points; oracle: invariants of a rigid rotation, cone / rectangular-window membership, untouched unselected particles, and equality of the event with the op applied to the op-less event on the tape suffix.',
    note='Rectangular half-angle exactly 0 is outside the domain (empty window).', ref='4 C10'),
